@@ -115,6 +115,55 @@ def check_program(case) -> Res:
     return Res("ok" if not viol else "problems", extra_nontrivial=texts, violations=uniq, transitions=len(texts))
 
 
+RAW_FIELDS = [
+    'NOTE::"first line\\nsecond line"', 'N2::"""a\nb ::= c"""', "COUNT::42", 'X::["a\\nb"∧BOGUS→§SELF]', 'Y::["x"∧MANDATORY]', 'Z::"# not a comment\\nroot ::= x"',
+    'W::plain words here', 'V::[a,b,c]', 'U::"quote \\" and ] bracket"', 'T::"tab\\there"',
+]
+
+
+def check_raw(case) -> Res:
+    """FIELDS entries that are NOT holographic patterns (the extractor keeps them with a warning) next to one real field"""
+    lines = list(case) + ['OK::["x"∧REQ∧ENUM[a,b]]']
+    doc = ('===RAWS===\nMETA:\n  TYPE::PROTOCOL_DEFINITION\n  VERSION::"1.0"\n---\nPOLICY:\n  VERSION::"1.0"\n  UNKNOWN_FIELDS::REJECT\nFIELDS:\n'
+           + "".join("  " + ln + "\n" for ln in lines) + "===END===\n")
+    cs = dict(fields=[[ln, "raw"] for ln in lines])
+    outs = []
+    r = sl.call("c", content=doc, format="gbnf")
+    if r.get("status") == "success" and isinstance(r.get("grammar"), str):
+        outs.append(("compile.fields", r["grammar"]))
+    r = sl.call("e", content=doc, schema="META", format="gbnf")
+    if isinstance(r.get("output"), str) and "::=" in r["output"]:
+        outs.append(("eject.fields", r["output"]))
+    try:
+        sd = extract_schema_from_document(parse(doc))
+        outs.append(("api.envelope", GBNFCompiler().compile_schema(sd, include_envelope=True)))
+        outs.append(("api.bare", GBNFCompiler().compile_schema(sd, include_envelope=False)))
+    except Exception:
+        pass
+    try:
+        sl.install_schema("RAWS", doc)
+        inst = "===I===\nMETA:\n  TYPE::X\n  VERSION::\"1.0\"\n---\nRAWS:\n  OTHER::1\n===END===\n"
+        g = (sl.call("v", content=inst, schema="RAWS", grammar_hint=True).get("grammar_hint") or {}).get("grammar")
+        if isinstance(g, str):
+            outs.append(("validate.grammar_hint", g))
+    except Exception:
+        pass
+    viol, texts = [], []
+    for route, g in outs:
+        texts.append(g)
+        rules, problems = gbnf.check(g)
+        if problems:
+            viol.append(dict(descriptor=f"{route}:" + ",".join(sorted(problems)), atoms=[f"gbnf:{p}" for p in sorted(problems)], route=route, case=cs,
+                             observed=f"problems={problems} grammar={g!r}"[:900], expected="well-formed GBNF"))
+    uniq, seen = [], set()
+    for v in viol:
+        key = tuple(v["atoms"])
+        if key not in seen:
+            seen.add(key)
+            uniq.append(v)
+    return Res("ok" if not viol else "problems", extra_nontrivial=texts, violations=uniq, transitions=len(texts))
+
+
 def check_history(case) -> Res:
     """Consecutive compilations in one process: the k-th grammar must equal a fresh compilation (no shared mutable state)."""
     fields = [("A", "REQ"), ("B", "ENUM[X,Y]")]
@@ -174,6 +223,7 @@ def run(ctx):
     if not ctx.quick:
         triples = [((a, "REQ"), (b, "OPT"), (c, "TYPE[NUMBER]")) for a in NAMES[:12] for b in NAMES[:12] for c in NAMES[:12] if len({a, b, c}) == 3]
         ctx.explore("name_triples", triples, check_program, chunk=20)
+    ctx.explore("raw_fields", [(a,) for a in RAW_FIELDS] + [(a, b) for a in RAW_FIELDS for b in RAW_FIELDS if a != b], check_raw, chunk=5)
     ctx.explore("history", [0], check_history, chunk=1)
     ctx.explore("packaged", ["META", "SKILL", "TEST_HOLOGRAPHIC", "DEBATE_TRANSCRIPT"], check_packaged, chunk=1)
     sl.cleanup()
@@ -186,6 +236,9 @@ def replay(ctx, rp):
             return check_history(0).violations
         if rp.get("subcheck") == "packaged":
             return check_packaged(c["packaged"]).violations
+        if rp.get("subcheck") == "raw_fields":
+            r = check_raw(tuple(f[0] for f in c["fields"][:-1]))
+            return [v for v in r.violations if v["descriptor"] == rp.get("descriptor")] or r.violations
         r = check_program(tuple(tuple(f) for f in c["fields"]))
         return [v for v in r.violations if v["descriptor"] == rp.get("descriptor")] or r.violations
     finally:
